@@ -128,7 +128,7 @@ def entry_fields(file, entry_pos, field_delim="\xFF"):
 
     # Try to convert to an int, an error may happen
     try:
-        filesize = int(filesize)
+        int(filesize) # only a sanity check: the field is kept as the raw bytes that were stored, because the intra-ecc was computed on them (the caller converts to an int after the intra-ecc correction)
     except Exception as e:
         print("Exception when trying to detect the filesize in ecc field (it may be corrupted), skipping: ")
         print(e)
@@ -662,7 +662,7 @@ Note2: that Reed-Solomon can correct up to 2*resilience_rate erasures (eg, null 
                 # -- End of intra-ecc on filepath
 
                 # -- Get file size, check its correctness and correct it by using intra-ecc if necessary
-                filesize = str(entry_p["filesize"])
+                filesize = entry_p["filesize"] # raw bytes of the field, exactly as stored (re-encoding them through int()/str() would change their length or content when they are corrupted, and mislead the intra-ecc)
                 filesize, fscorrupted, fscorrected, fserrmsg = ecc_correct_intra_stream(ecc_manager_intra, ecc_params_intra, hasher_intra, resilience_rate_intra, filesize, entry_p["filesize_ecc"], entry_pos, enable_erasures=enable_erasures, erasures_char=erasure_symbol, only_erasures=only_erasures, max_block_size=max_block_size)
 
                 # Report errors
